@@ -187,6 +187,22 @@ def _read_parquet_columns(
     return list(rel.columns), {c: str(t) for c, t in zip(rel.columns, rel.types)}
 
 
+def _create_table(
+    conn: duckdb.DuckDBPyConnection,
+    name: str,
+    components: Dict[str, Component],
+    type_overrides: Optional[Dict[str, str]] = None,
+) -> None:
+    """CREATE TABLE for a dataset; a DuckDB error (e.g. names colliding up to case) is a load error."""
+    try:
+        if type_overrides is None:
+            conn.execute(build_create_table_sql(name, components))
+        else:
+            conn.execute(build_create_table_sql(name, components, type_overrides))
+    except duckdb.Error as e:
+        raise map_duckdb_error(e, name, components)
+
+
 def load_datapoints_duckdb(
     conn: duckdb.DuckDBPyConnection,
     components: Dict[str, Component],
@@ -235,7 +251,7 @@ def load_datapoints_duckdb(
     csv_date_overrides = {n: "TIMESTAMP" for n, c in components.items() if c.data_type == Date}
 
     # 1. Create table (NOT NULL only, no PRIMARY KEY)
-    conn.execute(build_create_table_sql(dataset_name, components, csv_date_overrides))
+    _create_table(conn, dataset_name, components, csv_date_overrides)
 
     try:
         # 2. Detect CSV format (delimiter, quote, escape) using sniff_csv.
@@ -322,7 +338,7 @@ def _create_empty_table(
     table_name: str,
 ) -> duckdb.DuckDBPyRelation:
     """Create empty table with proper schema."""
-    conn.execute(build_create_table_sql(table_name, components))
+    _create_table(conn, table_name, components)
     return conn.table(table_name)
 
 
@@ -335,7 +351,7 @@ def _load_parquet(
     """Load a Parquet file into a DuckDB table via read_parquet."""
     id_columns = [n for n, c in components.items() if c.role == Role.IDENTIFIER]
 
-    conn.execute(build_create_table_sql(dataset_name, components))
+    _create_table(conn, dataset_name, components)
 
     try:
         parquet_cols, parquet_types = _read_parquet_columns(conn, file_path)
@@ -647,7 +663,7 @@ def register_dataframes(
         type_overrides = _detect_date_type_overrides(df, components)
 
         # Create table with proper schema
-        conn.execute(build_create_table_sql(name, components, type_overrides))
+        _create_table(conn, name, components, type_overrides)
 
         # Register DataFrame and insert data with explicit type casting
         temp_view = f"_temp_{name}"
